@@ -220,6 +220,9 @@ def discharge(obls: List[Obligation], tier: str = "quick", jobs: Optional[int] =
     confirm = tier == "thorough"
     jobs = jobs or int(os.environ.get("PYVC_JOBS", "12"))
     tmpdir = tempfile.mkdtemp(prefix="pyvc_")
+    # obligations decided by another back end (AST classification, Lean, regex engine) keep their verdict
+    all_obls = obls
+    obls = [o for o in obls if o.status == "pending"]
     # serialise in the main thread: z3's Python API is not thread-safe
     for o in obls:
         o.to_smt2()
@@ -242,4 +245,4 @@ def discharge(obls: List[Obligation], tier: str = "quick", jobs: Optional[int] =
             os.rmdir(tmpdir)
         except OSError:
             pass
-    return obls
+    return all_obls
